@@ -110,49 +110,22 @@ JOBS.append(dict(name='c16_page_might_match_bytes', entry='h_page_might_match_by
                  bound='page min/max 1..8 bytes, query values and the witness value at most 8 bytes', wip=True, **PI))
 
 # ---- status ------------------------------------------------------------------------------------------------
-# wip=False only for jobs that are ok on the unchanged tree AND failed on a deliberately broken copy.
-# Jobs listed here fail on the unchanged /repo because the real code violates C16 (findings; contracts kept strong).
-F_NE_NAN = ('FINDING: carquet_reader_row_group_matches, FLOAT/DOUBLE column, op NE, probe value NaN: compare_float/double return 0 for '
-            'unordered operands, so cmp_min == 0 && cmp_max == 0 and the group is pruned although every row satisfies x != NaN '
-            '(native: replay/direct/stats_rgm_f32.c reproduced)')
-F_OVERREAD = ('FINDING: carquet_reader_row_group_matches reads sizeof(type) bytes from statistics fields whose length is only checked '
-              'to be > 0 (BOOLEAN statistics are 1 byte and are read as int32; short/corrupt min/max of INT32/INT64/FLOAT/DOUBLE): '
-              'heap over-read, ASan reproduced (replay/direct/stats_rgm_anylen_*.c)')
-F_B_NAN = ('FINDING: carquet_statistics_add_values FLOAT/DOUBLE: compare_float sorts NaN above everything, so one NaN makes max = NaN; '
-           'NaN max is not an IEEE upper bound (reader then prunes GT/GE wrongly). Native: replay/direct/stats_builder_f32.c reproduced')
-F_PW_NAN = ('FINDING: update_statistics_float/double: a NaN first value initialises min = max = NaN and no later value replaces them '
-            '(v < NaN and v > NaN are false): page statistics are not bounds. Native: replay/direct/stats_pw_f32.c reproduced')
-F_PMM = ('FINDING: carquet_column_index_page_might_match compares plain little-endian numeric bounds with memcmp although the builder '
-         'knows the type: false negatives for INT32 (e.g. page max 1073805950, query min -1065289090, or query min 255 vs page max 256). '
-         'Native: replay/direct/stats_page_might_match.c reproduced')
-NOTES = {
-    'c16_rgm_float': F_NE_NAN, 'c16_rgm_double': F_NE_NAN,
-    'c16_rgm_i32_anylen': F_OVERREAD, 'c16_rgm_i64_anylen': F_OVERREAD, 'c16_rgm_float_anylen': F_OVERREAD,
-    'c16_rgm_double_anylen': F_OVERREAD, 'c16_rgm_bool_anylen': F_OVERREAD,
-    'c16_builder_add_values_float': F_B_NAN, 'c16_builder_add_values_double': F_B_NAN,
-    'c16_builder_float_seq': F_B_NAN, 'c16_builder_double_seq': F_B_NAN,
-    'c16_pw_update_statistics_float': F_PW_NAN, 'c16_pw_update_statistics_double': F_PW_NAN,
-    'c16_pw_float_seq': F_PW_NAN, 'c16_pw_double_seq': F_PW_NAN,
-    'c16_page_might_match_i32': F_PMM,
+# Every job below is ok on /repo (>= 3a560b6) and was seen failing on a scratch copy with the corresponding fix
+# reverted / a breakage applied (see report).  Former findings, now repaired upstream, and the jobs that pin them:
+FIXED = {
+    '0da1c76 short/BOOLEAN statistics over-read in row_group_matches': 'c16_rgm_{i32,i64,float,double,bool}_anylen, c16_rgm_bool, c16_rgm_bool_safety',
+    'b21d083 `!= NaN` pruned every row group': 'c16_rgm_float, c16_rgm_double',
+    '75caa73 builder stored NaN as max': 'c16_builder_add_values_{float,double}, c16_builder_{float,double}_seq',
+    '7287a8d builder overflow for FLBA type_length > 256': 'c16_builder_flba_wide',
+    'e091c9e false bounds after skipping byte arrays > 256 bytes': 'c16_builder_byte_arrays_seq, c16_builder_build',
+    'ccfd648 page statistics stuck at NaN': 'c16_pw_update_statistics_{float,double}, c16_pw_{float,double}_seq',
+    '3a560b6 page_might_match memcmp on numerics': 'c16_page_might_match_{i32,i64,float,double}',
 }
-# ok on /repo and seen failing on the broken scratch copy (see report)
-VALIDATED = set('''c16_rgm_i32 c16_rgm_i64 c16_rgm_float_probe_not_nan c16_rgm_double_probe_not_nan c16_rgm_bytes c16_rgm_flba
-c16_rgm_bytes_safety c16_rgm_flba_safety c16_filter_row_groups c16_builder_add_values_bool c16_builder_add_values_i32
-c16_builder_add_values_i64 c16_builder_add_values_float_total_order c16_builder_add_values_double_total_order c16_builder_add_nulls
-c16_stats_compare_i32 c16_stats_compare_i64 c16_stats_compare_float c16_stats_compare_double c16_range_overlaps_i32
-c16_range_overlaps_i64 c16_range_overlaps_float c16_range_overlaps_double c16_page_might_match_bytes
-c16_pw_update_statistics_i32 c16_pw_update_statistics_i64 c16_pw_update_statistics_float_first_not_nan
-c16_pw_update_statistics_double_first_not_nan'''.split())
-EST = {'c16_filter_row_groups': 60, 'c16_pw_update_statistics_i32': 40, 'c16_pw_update_statistics_i64': 60,
-       'c16_pw_update_statistics_float': 60, 'c16_pw_update_statistics_double': 100,
-       'c16_pw_update_statistics_float_first_not_nan': 60, 'c16_pw_update_statistics_double_first_not_nan': 100}
+EST = {'c16_filter_row_groups': 60, 'c16_pw_update_statistics_i32': 30, 'c16_pw_update_statistics_i64': 40,
+       'c16_pw_update_statistics_float': 60, 'c16_pw_update_statistics_double': 110, 'c16_builder_add_values_double': 40}
 for j in JOBS:
-    if j['name'] in NOTES:
-        j['wip'] = True
-        j['note'] = NOTES[j['name']]
-    elif j['name'] in VALIDATED:
-        j['wip'] = False
+    j['wip'] = False
     if j['name'] in EST:
         j['est_s'] = EST[j['name']]
-    if j['name'] in ('c16_pw_update_statistics_double', 'c16_pw_update_statistics_double_first_not_nan'):
-        j['tier'] = 'thorough'   # ~100 s unloaded, 300 s on a loaded machine
+    if j['name'] == 'c16_pw_update_statistics_double':
+        j['tier'] = 'thorough'   # ~110 s unloaded
